@@ -279,6 +279,51 @@ fn main() {
     }
     pow_case(&c, &e_data, &small_int_data(2), "boundary-pow", None);
 
+    // ---- boundary shapes of the stopping rules ----
+    // exp: first Taylor term equal to EPS (x = 1e-24) and the smallest x whose k-th term reaches EPS
+    // (term_k = floor(floor(x * term_(k-1) / 10^34) / k) = 10^10), one unit below / above, both signs
+    for xs in ["10000000000", "14142135623730950488017", "181712059283213965892571416", "22133638394006431995453967988",
+               "412891791733336800776747457862", "2993795165523909736323508194346"] {
+        for d in [-1i64, 0, 1] {
+            let x = Big::parse(xs).unwrap().add(&Big::from_i128(d as i128));
+            exp_case(&c, &x.to_string(), "boundary-exp-term=EPS", true, None);
+            exp_case(&c, &x.neg().to_string(), "boundary-exp-term=EPS", true, None);
+        }
+    }
+    // ln / pow: arguments strictly between e^n and e^n (1 + 1e-24): x_ = x / e^n - 1 is 0 < x_ <= EPS
+    let p34 = one34();
+    for k in [0i64, 1, 2, 3, -1, -2, 10] {
+        let ek = Big::parse(&data_of(&mk(&small_int_data(k)).exp())).unwrap();
+        for r in [30usize, 25, 24] {
+            let delta = ek.divrem(&Big::pow10(r)).0;
+            if delta.is_zero() { continue; }
+            for x in [ek.add(&delta), ek.add(&delta).sub(&Big::from_u64(1)), ek.add(&delta).add(&Big::from_u64(1))] {
+                ln_case(&c, &x.to_string(), "boundary-ln-e^k(1+tiny)", None);
+            }
+            let x = ek.add(&delta);
+            pow_case(&c, &x.to_string(), &small_int_data(2), "boundary-pow-e^k(1+tiny)", None);
+            if k == 0 {
+                // (1 + 1e-30)^1e6, (1 + 1e-24)^y for y = 2, 1e6, 1e12, 1e24
+                for y in [Big::from_u64(2), Big::pow10(6), Big::pow10(12), Big::pow10(24)] {
+                    pow_case(&c, &x.to_string(), &y.mul(&p34).to_string(), "boundary-pow-(1+tiny)^y", None);
+                    pow_case(&c, &x.to_string(), &y.mul(&p34).neg().to_string(), "boundary-pow-(1+tiny)^y", None);
+                }
+            }
+        }
+    }
+    for x in [p34.sub(&Big::from_u64(1)), p34.add(&Big::from_u64(1)), p34.sub(&Big::pow10(10)), p34.add(&Big::pow10(10))] {
+        ln_case(&c, &x.to_string(), "boundary-ln-1+-tiny", None);
+    }
+
+    // ln: 1 + x_ with x_ the smallest continued-fraction argument for which two successive convergents
+    // differ by exactly EPS (the `diff < eps` stopping test is decided by equality), and one unit below
+    for xs in ["10000447778314706958567411759369823", "10031589263290062464956146087343882", "10225994822703482579091636520685699", "10698024528982578455093629776955104", "11492453308525698876727671595856442", "12579880394167374683090869072182477", "13965110502017659555133113522439343", "15597824388168208777889942004550065", "17502661655923278062738832171285043", "19625566610845413521830473627207490"] {
+        let x = Big::parse(xs).unwrap();
+        ln_case(&c, &x.to_string(), "boundary-ln-cf-diff=EPS", None);
+        ln_case(&c, &x.sub(&Big::from_u64(1)).to_string(), "boundary-ln-cf-diff=EPS", None);
+        pow_case(&c, &x.to_string(), &small_int_data(3), "boundary-pow-cf-diff=EPS", None);
+    }
+
     // ---- random stream ----
     for i in 0..args.n {
         match rng.below(10) {
